@@ -726,7 +726,7 @@ def run_c06(chk: Check) -> int:
     run_models(chk, ["Refines"])
     blen = 7
     total = 6 ** blen
-    tails = [b""] if quick else [b""] + [bytes([a]) for a in ALPH] + [bytes([a, b]) for a in (FLAG, ESC, 0xA0) for b in ALPH]
+    tails = [b""] if quick else [b""] + [bytes([a]) for a in ALPH] + [bytes([FLAG, b]) for b in ALPH]
     step = total // 16 + 1
     jobs = []
     for cfg in CFGS:
